@@ -46,6 +46,21 @@ def replay_file(path, prop=None, quiet=False):
     r = m.replay(trace, prop, keep_log=True)
     v = r.violation
     res = {'property': prop, 'violation': v.as_dict() if v else None, 'digest': r.log.digest()}
+    if trace.get('cross_interpreter') and not os.environ.get('VERIF_XPROC_CHILD') and v is None:
+        # the violation of this file is a DIFFERENCE between interpreters: run it again under another hash seed
+        env = dict(os.environ, PYTHONHASHSEED='271828', VERIF_XPROC_CHILD='1')
+        p = subprocess.run([sys.executable, os.path.join(core.VERIF_DIR, 'check'), prop, '--replay', path],
+                           capture_output=True, text=True, env=env, timeout=600)
+        other = None
+        for line in p.stdout.splitlines():
+            if line.startswith('REPLAY '):
+                other = json.loads(line[len('REPLAY '):])
+        if other is None:
+            raise core.HarnessError('cross-interpreter replay child failed: ' + p.stderr[-300:])
+        if other['digest'] != res['digest']:
+            res['violation'] = dict(trace.get('expect') or {}, property=prop, clause='differs-across-interpreters',
+                                    sig='C06/differs-across-interpreters',
+                                    detail=f"digest {res['digest']} here, {other['digest']} under PYTHONHASHSEED=271828")
     if not quiet:
         print('REPLAY ' + json.dumps(res, sort_keys=True, default=str))
     return res
@@ -116,8 +131,23 @@ def run_check(prop, tier, base_seed, runs_override=None, workers=None):
     for a in core.run_chunks(m.chunk, payloads, workers):
         agg.merge(a)
 
+    # 2b. machine-specific cross-process stage (C06: same seeds under another PYTHONHASHSEED)
+    xproc = []
+    if hasattr(m, 'cross_interpreter'):
+        xproc = m.cross_interpreter(prop, seeds, quarantine)
+        for sd, v in xproc:
+            path = os.path.join(os.environ.get('VERIF_REPLAY_DIR') or os.path.join(core.VERIF_DIR, 'replays'),
+                                f'{prop}-xproc-{sd}.json')
+            tr = m.regenerate(sd, prop, quarantine)
+            tr['property'] = prop
+            tr['cross_interpreter'] = True
+            tr['expect'] = v
+            core.write_json(path, tr)
+            out_lines.append(f'VIOLATION property={prop} replay={path}')
+            out_lines.append(f"  {v['sig']}: {v['detail']} (replay: run the file in two interpreters with different PYTHONHASHSEED and compare the REPLAY digests)")
+
     # 3. violations: minimise, classify against known findings, verify replay, report
-    violations = 0
+    violations = len(xproc)
     seen_sigs = {}
     for seed, v in agg.violations:
         seen_sigs.setdefault(v['sig'], []).append(seed)
@@ -203,6 +233,9 @@ def run_check(prop, tier, base_seed, runs_override=None, workers=None):
     cov = m.coverage(prop, agg, tier, wall, workers)
     cov['violations_not_reproducible_from_seed'] = len(unreproducible)
     cov['known_findings_hit'] = known_hit
+    if hasattr(m, 'cross_interpreter') and prop == 'C06':
+        cov['cross_interpreter_seeds_compared'] = min(300, len(seeds))
+        cov['cross_interpreter_mismatches'] = len(xproc)
     cov['regression_histories_replayed'] = regress
     cov['components'] = COMPONENTS
     cov['quarantine'] = quarantine
